@@ -865,6 +865,41 @@ func processTree18(r *Run, t *tree18, toModel bool, ondiskBudget *int) {
 	if len(t.Tags) == 0 {
 		r.Count("injected", "none")
 	}
+	for _, k := range tb.kusts {
+		nMap := 0
+		cnt := func(name string, n int, isMap bool) {
+			if n > 0 {
+				r.Count("field", name)
+				if isMap {
+					nMap++
+				}
+			}
+		}
+		if _, ok := k.OpenAPI["path"]; ok {
+			r.Count("field", "openapi.path")
+		}
+		cnt("bases", len(k.Bases), true) //nolint:staticcheck
+		cnt("components", len(k.Components), true)
+		cnt("configurations", len(k.Configurations), true)
+		cnt("crds", len(k.Crds), true)
+		cnt("resources", len(k.Resources), true)
+		cnt("configMapGenerator", len(k.ConfigMapGenerator), false)
+		cnt("secretGenerator", len(k.SecretGenerator), false)
+		cnt("patches", len(k.Patches), false)
+		cnt("patchesJson6902", len(k.PatchesJson6902), false) //nolint:staticcheck
+		cnt("patchesStrategicMerge", len(k.PatchesStrategicMerge), false) //nolint:staticcheck
+		cnt("replacements", len(k.Replacements), false)
+		cnt("generators", len(k.Generators), false)
+		cnt("transformers", len(k.Transformers), false)
+		cnt("validators", len(k.Validators), false)
+		r.Count("map-ranged-fields-per-root", fmt.Sprint(nMap))
+	}
+	for _, refs := range tb.plugs {
+		for _, x := range refs {
+			r.Count("plugin-ref", x.Kind)
+		}
+	}
+	r.Count("roots", fmt.Sprint(len(tb.kusts)))
 	base := runLoc18(t, -1)
 	r.Count("outcome-no-fault", base.Cls)
 	r.Count("trace-length", fmt.Sprintf("%02d-%02d", len(base.Trace)/20*20, len(base.Trace)/20*20+19))
